@@ -25,11 +25,12 @@ class ScriptedClock:
         return v
 
 
-def vcase(H, rng, X, cid, kw, init, n_to, chain=None, clock=None):
+def vcase(H, rng, X, cid, kw, init, n_to, chain=None, clock=None, scale=1.0):
     import skmatter.sample_selection._voronoi_fps as vm
     N = X.shape[0]
     obj = H.CLASSES["VoronoiFPS"][0](**kw)
-    rec = H.Recorder(obj, "VoronoiFPS", X.astype(float), None, 2, True, fps=True)
+    # scaled lattice: the code sees X*scale (genuine rounding); tables are converted back to lattice units
+    rec = H.Recorder(obj, "VoronoiFPS", X.astype(float) * scale, None, 2.0 / (scale * scale), True, fps=True)
     active = []
     try:
         orig = obj._get_active
@@ -55,7 +56,7 @@ def vcase(H, rng, X, cid, kw, init, n_to, chain=None, clock=None):
     ff = getattr(obj, "full_fraction", None)
     return {"id": cid, "n": int(N), "cls": "VoronoiFPS", "P": X.astype(int).tolist(), "Q": [[] for _ in range(N)],
             "wa": 2, "wb": 0, "wantinit": [int(i) + 1 for i in init], "events": rec.events,
-            "params": dict(kw), "active": active, "ff_after": None if ff is None else float(ff), "layer": rec.layer}
+            "params": dict(kw), "scale": scale, "active": active, "ff_after": None if ff is None else float(ff), "layer": rec.layer}
 
 
 def data(H, rng, big):
@@ -99,7 +100,8 @@ def gen(args):
             cur = N // 2 if n_to is None else (int(N * n_to) if isinstance(n_to, float) else n_to)
             if cur < N:
                 chain = [int(rng.integers(cur, N + 1))]
-        c = vcase(H, rng, X, "w%d-%d" % (wid, t), kw, init, n_to, chain=chain)
+        scale = [1.0, 1.0, 1e-5, 3.7e-3, 0.25, 1e3, 7e-7][int(rng.integers(7))]
+        c = vcase(H, rng, X, "w%d-%d" % (wid, t), kw, init, n_to, chain=chain, scale=scale)
         c["kind"] = kind
         out.append(c)
     return out
